@@ -15,6 +15,9 @@
 //!   style = <crlf 0/1>.<hsep>.<lead>.<sep>.<sym>.<tail>.<post>.<gap>   (blank strings: s = ' ', t = TAB)
 //!   spec  = cap:<c> (BufReader::with_capacity(c, Cursor)) | cyc:<a>,<b>,.. (custom BufRead whose
 //!           successive fill_buf slices have these sizes, cyclically) | all (Cursor)
+//!           | ev:<e>,<e>,.. (custom BufRead following a script: <n> = a data slice of n bytes,
+//!           Ei|Eo|Eu|Ed|Ew = fill_buf returns an io::Error of kind Interrupted|Other|UnexpectedEof|
+//!           InvalidData|WouldBlock, consumed when reported; then the rest of the data in one slice)
 //! Observation: len=<n> fnv=<hash of the file bytes> [ft=<tok>:<f32 bits>,..] obs=<o>;<o>..|<o>;..|=
 //!   one `|`-separated group per chunking (`=`: identical to the first group); outcome
 //!   o = R:<idhex>:<deschex or ->:<rows>:<cells row-major, K per row> | E:io|nom|inv | END | PANIC | CAP | HANG
@@ -67,6 +70,78 @@ impl<'a> BufRead for ChunkReader<'a> {
     fn consume(&mut self, n: usize) {
         self.pos = (self.pos + n).min(self.end);
     }
+}
+
+/// A BufRead whose successive fill_buf() calls follow a script of events: a data slice of the given
+/// size, or an io::Error of the given kind (consumed when reported: the next call goes on).  After
+/// the script the rest of the data comes in one slice.
+#[derive(Clone, Copy)]
+enum Ev {
+    Data(usize),
+    Err(std::io::ErrorKind),
+}
+
+struct EvReader<'a> {
+    data: &'a [u8],
+    pos: usize,
+    end: usize,
+    script: Vec<Ev>,
+    k: usize,
+}
+
+impl<'a> EvReader<'a> {
+    fn new(data: &'a [u8], script: Vec<Ev>) -> Self {
+        EvReader { data, pos: 0, end: 0, script, k: 0 }
+    }
+}
+
+impl<'a> Read for EvReader<'a> {
+    fn read(&mut self, buf: &mut [u8]) -> std::io::Result<usize> {
+        let avail = self.fill_buf()?;
+        let n = avail.len().min(buf.len());
+        buf[..n].copy_from_slice(&avail[..n]);
+        self.consume(n);
+        Ok(n)
+    }
+}
+
+impl<'a> BufRead for EvReader<'a> {
+    fn fill_buf(&mut self) -> std::io::Result<&[u8]> {
+        while self.pos == self.end {
+            if self.k < self.script.len() {
+                let ev = self.script[self.k];
+                self.k += 1;
+                match ev {
+                    Ev::Err(kind) => return Err(std::io::Error::new(kind, "injected")),
+                    Ev::Data(sz) => {
+                        // a data event when nothing is left delivers nothing and is skipped
+                        self.end = (self.pos + sz.max(1)).min(self.data.len());
+                    }
+                }
+            } else {
+                self.end = self.data.len();
+                break;
+            }
+        }
+        Ok(&self.data[self.pos..self.end])
+    }
+    fn consume(&mut self, n: usize) {
+        self.pos = (self.pos + n).min(self.end);
+    }
+}
+
+fn parse_events(l: &str) -> Vec<Ev> {
+    l.split(',')
+        .filter(|x| !x.is_empty())
+        .map(|x| match x {
+            "Ei" => Ev::Err(std::io::ErrorKind::Interrupted),
+            "Eo" => Ev::Err(std::io::ErrorKind::Other),
+            "Eu" => Ev::Err(std::io::ErrorKind::UnexpectedEof),
+            "Ed" => Ev::Err(std::io::ErrorKind::InvalidData),
+            "Ew" => Ev::Err(std::io::ErrorKind::WouldBlock),
+            n => Ev::Data(n.parse().unwrap()),
+        })
+        .collect()
 }
 
 // ------------------------------------------------------------------ records, styles, printers
@@ -370,6 +445,11 @@ fn run_chunking(fmt: &str, abc: &str, data: &[u8], spec: &str, post: usize) -> V
     } else if let Some(l) = spec.strip_prefix("cyc:") {
         let sizes: Vec<usize> = l.split(',').map(|x| x.parse().unwrap()).collect();
         run_reader(fmt, abc, n, post, || ChunkReader::new(data, sizes))
+    } else if let Some(l) = spec.strip_prefix("ev:") {
+        let script = parse_events(l);
+        // every error event can cost one more call
+        let extra = script.iter().filter(|e| matches!(e, Ev::Err(_))).count();
+        run_reader(fmt, abc, n + extra, post, || EvReader::new(data, script))
     } else {
         vec!["SKIP".to_string()]
     }
@@ -759,9 +839,39 @@ fn mutate(rng: &mut Rng, base: &[u8]) -> Vec<u8> {
     v
 }
 
+fn gen_events(rng: &mut Rng, len: usize) -> String {
+    // data slices (small, line-sized or large) with 1-3 error events: on the first call, in the middle
+    // of a record, at a chunk boundary, after the end of the data, several in a row
+    let maxs = *rng.pick(&[2u64, 7, 40, 400]);
+    let n = rng.range(1, 10) as usize;
+    let mut v: Vec<String> = (0..n).map(|_| (1 + rng.below(maxs)).to_string()).collect();
+    let nerr = rng.range(1, 3) as usize;
+    for _ in 0..nerr {
+        let kind = *rng.pick(&["Eo", "Eo", "Eu", "Ed", "Ew", "Ei", "Ei"]);
+        let at = match rng.below(6) {
+            0 => 0,
+            1 => v.len(),
+            _ => rng.below(v.len() as u64 + 1) as usize,
+        };
+        v.insert(at, kind.to_string());
+        if rng.chance(1, 5) {
+            v.insert(at, kind.to_string());
+        }
+    }
+    if rng.chance(1, 4) {
+        // make sure the whole input is covered by the script so that errors can come after the data
+        v.insert(v.len() - 1, (len + 1).to_string());
+    }
+    format!("ev:{}", v.join(","))
+}
+
 fn c15_chunks(rng: &mut Rng, len: usize) -> String {
     let mut v = vec![];
-    for _ in 0..3 {
+    for k in 0..3 {
+        if k == 2 && rng.chance(1, 2) {
+            v.push(gen_events(rng, len));
+            continue;
+        }
         v.push(match rng.below(9) {
             0 => "all".to_string(),
             1 => "cap:1".to_string(),
